@@ -98,6 +98,7 @@ type Engine struct {
 	funcs          map[string]*ssa.Function // by contract-style name
 	readOwnedCache map[string]bool
 	renameNotes    []string
+	litElems       map[string]map[int64]Val // At function of a literal slice -> elements stored at literal indices
 	baseClosures   map[string][]ClosureSig
 	loopsHit       map[string]bool
 	calledFns      map[*ssa.Function]bool
